@@ -22,6 +22,7 @@ func init() {
 			ruleStoredListsAreCopies(c, "R2b")
 			ruleRetroactive(c, "R3")
 			ruleWrapSites(c, "R4")
+			ruleNoWastedWrap(c, "R4b")
 			ruleExhaustiveWalks(c, "R3w", []*ssa.Function{c.P.MustFunc("tree.(*Tree).ApplyMiddleware")}, "the retroactive application visits every node")
 		},
 	})
@@ -522,4 +523,85 @@ func ownedSlice(c *Ctx, v ssa.Value, depth int) bool {
 		}
 	}
 	return false
+}
+
+// ruleNoWastedWrap is C09.R4b: "every middleware factory is invoked exactly once per wrapped handler" — a handler
+// that was wrapped (the fold ran the user's factories) is installed on every path that follows: stored into a
+// handler map or a handler field, returned, or handed to a module function that does so with that parameter on
+// every path. A wrap whose result can be dropped (computed eagerly, stored only if absent) invokes the factories
+// for a handler that is never served.
+func ruleNoWastedWrap(c *Ctx, rule string) {
+	amw := applyMW(c)
+	c.R.Rule(c.R.Property+"."+rule, 4, "a wrapped handler is always installed: the factories are not invoked for handlers that are thrown away")
+	var sinkOf func(f *ssa.Function, v ssa.Value, depth int) func(ssa.Instruction) bool
+	sinkOf = func(f *ssa.Function, v ssa.Value, depth int) func(ssa.Instruction) bool {
+		return func(in ssa.Instruction) bool {
+			switch x := in.(type) {
+			case *ssa.MapUpdate:
+				return x.Value == v
+			case *ssa.Store:
+				return x.Val == v
+			case *ssa.Return:
+				for _, r := range x.Results {
+					if r == v {
+						return true
+					}
+				}
+				return false
+			}
+			call := an.CallOf(in)
+			if call == nil || depth > 2 {
+				return false
+			}
+			if _, isDefer := in.(*ssa.Defer); isDefer {
+				return false
+			}
+			g := an.StaticCallee(call)
+			if g == nil || !an.InModule(g) || len(g.Blocks) == 0 {
+				return false
+			}
+			for i, a := range an.CallArgs(call) {
+				if a != v || i >= len(g.Params) {
+					continue
+				}
+				if an.Origin(g) == an.Origin(amw) && i == 0 {
+					return true // wrapped again: the inner handler lives on inside the new one
+				}
+				p := g.Params[i]
+				inner := sinkOf(g, p, depth+1)
+				path := (&an.Query{
+					Target: func(t ssa.Instruction) bool { _, ok := t.(*ssa.Return); return ok && !inner(t) },
+					Block:  inner,
+				}).Search(an.Entry(g))
+				if path == nil {
+					return true
+				}
+			}
+			return false
+		}
+	}
+	for _, f := range c.libFuncs() {
+		if an.Origin(f) == an.Origin(amw) {
+			continue
+		}
+		an.AllInstrs(f, func(in ssa.Instruction) {
+			call, ok := in.(*ssa.Call)
+			if !ok {
+				return
+			}
+			g := an.StaticCallee(&call.Call)
+			if g == nil || an.Origin(g) != an.Origin(amw) {
+				return
+			}
+			sink := sinkOf(f, call, 0)
+			path := (&an.Query{
+				Target: func(t ssa.Instruction) bool { _, ok := t.(*ssa.Return); return ok && !sink(t) },
+				Block:  sink,
+			}).Search(an.After(in))
+			o := c.R.Add(rule, c.fk(f), "wrap:"+strings.ReplaceAll(c.O.Of(call.Call.Args[1]).String(), " ", "")+"/installed-on-every-path", c.pos(in), path == nil, ifelse(path == nil, "the wrapped handler is stored, returned or handed to a function that installs it, on every path", "the wrapped handler can be dropped: the middleware factories were invoked for a handler that is never served (not exactly once per wrapped handler)"))
+			if path != nil {
+				o.Path = c.P.PathString(path)
+			}
+		})
+	}
 }
